@@ -422,6 +422,7 @@ def run(ctx):
     strat = st.tuples(st.one_of(gen_cfg.model_and_spec(),
                                 gen_cfg.model_and_spec(want_mc=True),
                                 gen_cfg.model_and_spec(force=['dict_names']),
+                                gen_cfg.model_and_spec(force=['big'], want_mixed=True),
                                 gen_cfg.model_and_spec(force=['dict_names'], want_mc=True),
                                 gen_cfg.model_and_spec(want_mixed=True, force=['many_ports'])),
                       st.integers(0, 1000))
